@@ -1,5 +1,9 @@
 import GomlVerif.Lemmas.C03presAnfCases
 import GomlVerif.Lemmas.C03presAnfClosed
+import GomlVerif.Lemmas.C03presAnfScope
+import GomlVerif.Lemmas.C03presMono
+import GomlVerif.Model.C03presSig
+import GomlVerif.Lemmas.C03presMatch
 /-!
 # C03 proper — the passes PRESERVE well-typedness and closedness
 
@@ -11,7 +15,7 @@ are decidable predicates that `gomlmodel c03pres` evaluates on every real progra
 (`evidence/C03.json`, `pass_preservation`).
 -/
 namespace Goml.C03pres
-open Goml Goml.Wt Goml.Anf Goml.Closed
+open Goml Goml.Wt Goml.Anf Goml.Closed Goml.Scoped
 
 /-! ## ANF (`anf.rs`, model `Model/Anf.lean`) -/
 
@@ -74,17 +78,49 @@ theorem anf_preserves_closed (p : Ty → Bool) (hp : PBase p) (e : Expr) (n : Na
 theorem closedTy_base : PBase closedTy :=
   ⟨rfl, fun q => by cases q <;> rfl⟩
 
-/-- the closedness half of the stage predicate `closedFn` for a whole file -/
+/-- ANF builds no `ETraitCall` node -/
+theorem anf_preserves_noTraitCall (e : Expr) (n : Nat) (h : noTraitCall e = true) :
+    noTraitCall (anf e n ret).1 = true := nt_top (dec_ntc e) n h
+
+/-- the stage predicate `closedFns` (every annotation of every function — parameters, result, body —
+is free of type parameters, type applications and inference variables, and no trait call is left)
+is preserved by `anf_file`, whatever the gensym counter -/
 theorem anf_file_preserves_closed : ∀ (fns : List Fn) (n : Nat),
-    (∀ f ∈ fns, fnAllTys closedTy f = true) → ∀ f' ∈ (anfFns fns n).1, fnAllTys closedTy f' = true
-  | [], _, _, f', hf' => by simp [anfFns] at hf'
-  | g :: rest, n, hw, f', hf' => by
-    simp only [anfFns, List.mem_cons] at hf'
-    rcases hf' with rfl | hf'
-    · have := hw g (by simp)
-      simp only [fnAllTys, Bool.and_eq_true] at this ⊢
-      exact ⟨this.1, anf_preserves_closed closedTy closedTy_base g.body n this.2⟩
-    · exact anf_file_preserves_closed rest _ (fun f hf => hw f (by simp [hf])) f' hf'
+    closedFns fns = true → closedFns (anfFns fns n).1 = true
+  | [], _, _ => by simp [anfFns, closedFns]
+  | g :: rest, n, hw => by
+    simp only [closedFns, List.all_cons, Bool.and_eq_true] at hw
+    have ih := anf_file_preserves_closed rest (anf g.body n ret).2 (by simpa [closedFns] using hw.2)
+    simp only [closedFns] at ih
+    simp only [anfFns, closedFns, List.all_cons, Bool.and_eq_true]
+    refine ⟨?_, ih⟩
+    have hg := hw.1
+    simp only [closedFn, fnAllTys, Bool.and_eq_true] at hg ⊢
+    exact ⟨⟨hg.1.1, anf_preserves_closed closedTy closedTy_base g.body n hg.1.2⟩,
+      anf_preserves_noTraitCall g.body n hg.2⟩
+
+/-- `anf_preserves_scoped`: scope closedness alone, independently of types (it also covers the
+functions that `Wt` rejects at the Lift stage because of the known finding
+`closure-struct-vs-function-type`): if every variable occurrence of `e` is under a binder of its name
+or in `B`, the same holds of `anf e` — every temporary is bound by the chain before its use, no
+source variable leaves the `let` that binds it, none is captured by a widened `let`. -/
+theorem anf_preserves_scoped (B : List String) (e : Expr) (n : Nat)
+    (hf : inAnfFragment e n = true) (h : unbound B e = []) : unbound B (anf e n ret).1 = [] :=
+  sc_top (sc_all e) n _ [] B B (hyp_of_inFragment hf) (fun _ _ => Iff.rfl) h
+
+theorem anf_file_preserves_scoped (G : List String) : ∀ (fns : List Fn) (n : Nat),
+    (anfFragFlags fns n).all (fun b => b) = true → scopedFns G fns = true → scopedFns G (anfFns fns n).1 = true
+  | [], _, _, _ => by simp [anfFns, scopedFns]
+  | g :: rest, n, hfl, hw => by
+    simp only [anfFragFlags, List.all_cons, Bool.and_eq_true] at hfl
+    simp only [scopedFns, List.all_cons, Bool.and_eq_true] at hw
+    have ih := anf_file_preserves_scoped G rest (anf g.body n ret).2 hfl.2 (by simpa [scopedFns] using hw.2)
+    simp only [scopedFns] at ih
+    simp only [anfFns, scopedFns, List.all_cons, Bool.and_eq_true]
+    refine ⟨?_, ih⟩
+    have hg := hw.1
+    simp only [scopedFn, List.isEmpty_iff] at hg ⊢
+    exact anf_preserves_scoped _ g.body n hfl.1 hg
 
 /-! ### non-vacuity: the two functions of corpus program `pipeline/039_sum_100` at the Lift stage -/
 
@@ -116,8 +152,11 @@ example : ∀ f' ∈ (anfFns sig039.fns 0).1, wtFn sig039 f' = true :=
   anf_file_preserves_wt sig039 _ 0 (by decide) (by decide +kernel)
 /-- … and by evaluation -/
 example : ((anfFns sig039.fns 0).1.all (wtFn sig039)) = true := by decide +kernel
-example : ∀ f' ∈ (anfFns sig039.fns 0).1, fnAllTys closedTy f' = true :=
+example : closedFns (anfFns sig039.fns 0).1 = true :=
   anf_file_preserves_closed _ 0 (by decide +kernel)
+
+example : scopedFns ["my_int_equal", "sum"] (anfFns sig039.fns 0).1 = true :=
+  anf_file_preserves_scoped _ _ 0 (by decide) (by decide +kernel)
 
 /-- the fragment hypothesis is needed: `x + (let x = true in 1)` is consistent, its A-normal form
 `let x = true in let t0 = 1 in x + t0` is not (the widened `let` captures the left operand) -/
@@ -136,5 +175,108 @@ example : inAnfFragment eTmp 0 = false := by decide
 example : wt {fns := []} ΓTmp eTmp = true := by decide +kernel
 example : errs {fns := []} ΓTmp (anf eTmp 0 ret).1 = ["var:annotation-differs-from-binder|prim/prim"] := by
   decide +kernel
+
+/-! ## Mono (`mono.rs`, model `Model/Mono.lean`, tied by `./check C07`) -/
+
+section Mono
+open Goml.Mono
+
+theorem tparamsOf_eq_fvT : ∀ (t : Ty), tparamsOf t = fvT t := by
+  apply Ty.rec (motive_1 := fun t => tparamsOf t = fvT t) (motive_2 := fun ts => tparamsOfs ts = fvTs ts)
+  all_goals intros
+  all_goals simp_all [tparamsOf, tparamsOfs, fvT, fvTs]
+
+/-- the executable check implies the hypothesis `SigClosed` of the substitution theorems -/
+theorem sigClosedB_sound (S : Sig) (h : sigClosedB S = true) : SigClosed S := by
+  simp only [sigClosedB, Bool.and_eq_true, List.all_eq_true, List.contains_eq_mem, decide_eq_true_eq] at h
+  refine ⟨?_, ?_, ?_⟩
+  · intro d hd v hv t ht x hx
+    exact h.1.1 d hd v hv t ht x (by rw [tparamsOf_eq_fvT]; exact hx)
+  · intro d hd f hf x hx
+    exact h.1.2 d hd f hf x (by rw [tparamsOf_eq_fvT]; exact hx)
+  · intro d hd mt hm
+    exact h.2 d hd mt hm
+
+/-- `mono_preserves_wt_partial`: phase 1 of monomorphisation (`mono_expr`) preserves type
+consistency of a body — the instance body is the substitution instance of the generic body
+(`subst_preserves_wt`) up to the names of callees (`monoExpr_sameUpToCallee`), and a name is judged
+against the function table `fns'` of the monomorphised program: `Mono.presHypCallees` (decidable,
+evaluated on every real program) asks that each renamed callee `f__inst` / `trait_impl#…` is declared in
+`fns'` with a type its annotation is an instance of, and that an unrenamed global means a function of
+the same type before and after.  **Partial**: the side condition on names is checked on the output
+instead of being derived from the work-list closure; a binder shadowing a generic function's name is not
+excluded; phase 2 (`collapse`: `Opt[int32]` ↦ `Opt__int32`) is covered only for bodies without type
+applications (`mono_preserves_wt_noApp_partial`) — see `Lemmas/C03presMono.lean`. -/
+theorem mono_preserves_wt_partial (S : Sig) (hS : sigClosedB S = true) (fns' F : List Fn) (σ : Subst) (Γ : TyEnv)
+    (e : Expr) (c : Ctx) (h : wt S Γ e = true)
+    (hc : presHypCallees S fns' (mapΓ σ Γ) (substE σ e) (monoExpr F σ e c).1 = true) :
+    wt (presSig S fns') (mapΓ σ Γ) (monoExpr F σ e c).1 = true :=
+  Goml.Wt.mono_preserves_wt_partial S (sigClosedB_sound S hS) fns' F σ Γ e c h hc
+
+/-- the whole output of phase 1: if the work list empties, every generic function is `wtFn` under `S`
+and the emitted functions pass `Mono.presHypOut` against the emitted function table (together:
+`Mono.presHypProg`, decidable), then every emitted instance is `wtFn` under the definitions of `S`
+with the emitted function table -/
+theorem mono_phase1_preserves_wtProg_partial (S : Sig) (hS : sigClosedB S = true) (fns : List Fn) (fuel : Nat) (c' : Ctx)
+    (hp : phase1 fuel fns = some c') (hwt : ∀ f ∈ origFns fns, wtFn S f = true)
+    (hc : presHypOut S (origFns fns) c'.out (presItems (origFns fns) fuel (seed (origFns fns))) = true) :
+    wtProg (presSig S c'.out) = true :=
+  phase1_wtProg_partial S (sigClosedB_sound S hS) fns fuel c' hp hwt hc
+
+/-- phases 1 and 2 for an instance body whose annotations contain no type application (phase 2 is the
+identity there) -/
+theorem mono_preserves_wt_noApp_partial (S : Sig) (hS : sigClosedB S = true) (fns' F : List Fn) (σ : Subst) (Γ : TyEnv)
+    (e : Expr) (c : Ctx) (tyFuel : Nat) (m : TM) (h : wt S Γ e = true)
+    (hc : presHypCallees S fns' (mapΓ σ Γ) (substE σ e) (monoExpr F σ e c).1 = true)
+    (hn : allTys noApp (monoExpr F σ e c).1 = true) (hk : presHypCtors (monoExpr F σ e c).1 = true) :
+    wt (presSig S fns') (mapΓ σ Γ) (rewriteExpr tyFuel (monoExpr F σ e c).1 m).1 = true :=
+  Goml.Wt.mono_preserves_wt_noApp_partial S (sigClosedB_sound S hS) fns' F σ Γ e c tyFuel m h hc hn hk
+
+-- non-vacuity (program `PresEx.prog`: `id[T]`, `apply[T]`, `get_or[T]` with a generic call, a generic function
+-- value, a constructor pattern, a builtin and a trait call; see Lemmas/C03presMono.lean)
+example : sigClosedB PresEx.sig = true := by decide +kernel
+example : presHypProg PresEx.sig 20 PresEx.prog = true := by decide +kernel
+
+end Mono
+
+/-! ## the match compiler (`compile_match.rs`, model `Model/Match.lean`, tied by `./check C06`) -/
+
+section MatchC
+open Goml.Match
+
+/-- `matchc_preserves_closed`: the expression the match compiler emits for a pattern matrix is
+scope-closed under `Γ` — every pattern variable used in an arm body is bound (by a `let name = column`
+wrapped around the leaf) on every path of the decision tree that reaches that arm, and every generated
+column variable `x<n>` is bound by a `let x<n> = field/projection of its parent` before the sub-tree that
+tests or copies it.  `Γ` = names bound around the match (among them the runtime function `missing`),
+`T` = the types of the column variables.  Hypotheses, all decidable and evaluated on every real match
+site: every column variable is in `Γ`, typed by `T`, its pattern well-formed at that type (a constructor
+pattern has no more arguments than the declaration has fields: the Rust zips and would drop the surplus
+pattern variables); each arm body mentions only `Γ`, its own pattern variables and the names already
+moved into `binds` (`presHypRows`); no column variable is spelled like a generated name (`presHypNames`). -/
+theorem matchc_preserves_closed (S : Match.Sig) (hgen : S.gen = realGen)
+    (fuel : Nat) (ty : Ty) (n : Nat) (rows : List (Row Expr)) (t : DT Expr) (n' : Nat) (Γ : List String)
+    (T : List (String × Ty))
+    (hc : compileRows S fuel ty n rows = some (.ok (t, n')))
+    (hmissing : Γ.contains "missing" = true)
+    (hnames : presHypNames T = true)
+    (hrows : presHypRows S fvE Γ T rows = true) : closedE Γ t.toExpr = true :=
+  Goml.Match.matchc_preserves_closed S hgen fuel ty n rows t n' Γ T hc hmissing hnames hrows
+
+/-- entry point `match e { arms }` (scrutinee a variable, or bound to `mtmp` first) -/
+theorem compileMatch_closed (S : Match.Sig) (hgen : S.gen = realGen) (fuel : Nat) (ty : Ty) (mtmp : String)
+    (n : Nat) (sc : Scrut) (arms : List (ArmIn Expr)) (e : Expr) (n' : Nat) (Γ : List String) (sty : Ty)
+    (hc : compileMatch S fuel ty mtmp n sc arms = some (.ok (e, n')))
+    (hyp : presHypMatch S Γ sty mtmp sc arms = true) : closedE Γ e = true :=
+  Goml.Match.compileMatch_closed S hgen fuel ty mtmp n sc arms e n' Γ sty hc hyp
+
+/-- entry point `let pat = e; rest` -/
+theorem compileLet_closed (S : Match.Sig) (hgen : S.gen = realGen) (fuel : Nat) (ty : Ty) (mtmp : String)
+    (n : Nat) (e : Expr) (pat : Pat) (rest : Expr) (restTy : Ty) (out : Expr) (n' : Nat) (Γ : List String)
+    (hc : compileLet S fuel ty mtmp n e pat rest restTy = some (.ok (out, n')))
+    (hyp : presHypLet S Γ mtmp e pat rest restTy = true) : closedE Γ out = true :=
+  Goml.Match.compileLet_closed S hgen fuel ty mtmp n e pat rest restTy out n' Γ hc hyp
+
+end MatchC
 
 end Goml.C03pres
